@@ -139,10 +139,16 @@ def web_cycles(chk, rng, stats, n):
                 captured = restate(base)
                 simnet.install(copy.deepcopy(captured))
                 settings.Settings._the_config['script_path'] = scratch
-                app.snapshot()
-                net, ls, trace = simnet.install(restate(base))
-                settings.Settings._the_config['script_path'] = scratch
-                app.queue_file('__snapshot__.ls')
+                try:
+                    app.snapshot()
+                    net, ls, trace = simnet.install(restate(base))
+                    settings.Settings._the_config['script_path'] = scratch
+                    app.queue_file('__snapshot__.ls')
+                except Exception as ex:  # noqa
+                    chk.count()
+                    chk.violation('capture-raises', 'capture / replay through the web application raised {}: {}'.format(
+                        type(ex).__name__, ex), {'population': captured, 'cycle': cycle + 1})
+                    break
                 deadline = _time.monotonic() + 5
                 while app._jobs.has_jobs() and _time.monotonic() < deadline:
                     _time.sleep(0.002)
